@@ -843,3 +843,41 @@ def leaf_lines(rng, fns, count):
 LEAF_CODES = {1: "malformed record", 340: "call is undefined behaviour by the translated C text",
               341: "function translated from the C text and compiled function disagree (translator / semantics)",
               342: "leaf function violates its specification"}
+
+
+# ---------- verdict lines of the recognition tools (cli:cliverdict) ----------
+def _mat_text(rng, M, fmt):
+    m, n = len(M), (len(M[0]) if M else 0)
+    if fmt == 0:
+        return "%d %d\n" % (m, n) + "".join(" ".join(str(x) for x in r) + "\n" for r in M)
+    tr = [(i + 1, j + 1, M[i][j]) for i in range(m) for j in range(n) if M[i][j] != 0]
+    rng.shuffle(tr)
+    return "%d %d %d\n" % (m, n, len(tr)) + "".join("%d %d %d\n" % t for t in tr)
+
+
+def cliverdict_lines(rng, tool, nvariants, count, alpha, maxm, maxn, maxcells, structured_ternary=None):
+    """cases `tool variant infmt nin bytes..` for one tool: random small matrices over `alpha` within the size the
+    definition-level oracle decides, a third of them structured (network / SP / sums) when structured_ternary is given"""
+    import vlib
+    out = []
+    for i in range(count):
+        if structured_ternary is not None and i % 3 == 0:
+            M = structured(rng, max(maxm, maxn), structured_ternary)
+            if not M or not M[0] or len(M) > maxm or len(M[0]) > maxn or len(M) * len(M[0]) > maxcells:
+                M = None
+        else:
+            M = None
+        if M is None:
+            m, n = 1 + rng.below(maxm), 1 + rng.below(maxn)
+            while m * n > maxcells:
+                m, n = 1 + rng.below(maxm), 1 + rng.below(maxn)
+            M = vlib.rand_matrix(rng, m, n, alpha, 2 + rng.below(7), 10)
+        fmt = rng.below(2)
+        b = [ord(c) for c in _mat_text(rng, M, fmt)]
+        out.append("%d %d %d %d %s" % (tool, rng.below(nvariants), fmt, len(b), " ".join(map(str, b))))
+    return out
+
+
+CLIVERDICT_CODES = {1: "malformed record", 350: "tool failed on a well-formed matrix file",
+                    351: "tool printed no verdict line, or a positive and a negative one",
+                    352: "the tool's verdict contradicts the definition", 353: "verdict line although the input text is malformed"}
